@@ -1,6 +1,6 @@
 From Coq Require Import Sorting.Permutation.
 From Errdef Require Import Base.Str Base.Outcome Model.Core Model.Convert Model.Unmarshal Check.UM Check.C12
-  Proofs.C10Proofs Proofs.C13Proofs.
+  Proofs.C10Proofs Proofs.SortFields Proofs.C13Proofs.
 
 (* what each decoded field contributes, independently of the others *)
 Definition typed_of (nr : string * fres) : list (ukey * bval) := match snd nr with FTyped k b => [(k, b)] | _ => [] end.
@@ -32,16 +32,120 @@ Definition cres_of (c : ucfg) (cs : list (option dd)) : ures (list rcause) :=
   seq_causes ((fix go (l : list (option dd)) : list (ures rcause) :=
                  match l with [] => [] | None :: r => UFail [internal_failure] :: go r | Some cd :: r => snd (both c cd) :: go r end) cs).
 
+(* ---------- determinism (as of the fix for F12) ---------- *)
+(* the decoded tree with the fields of every node in name order *)
+Fixpoint norm (d : dd) : dd :=
+  match d with
+  | DD m k t fs st cs u => DD m k t (sort_fields fs) st (map (option_map norm) cs) u
+  end.
+
+(* two decoded trees that differ only in the order in which the fields of a node are met
+   (Go's map iteration order), at any node of the tree *)
+Inductive opt_rel {A} (R : A -> A -> Prop) : option A -> option A -> Prop :=
+| OR_none : opt_rel R None None
+| OR_some x y : R x y -> opt_rel R (Some x) (Some y).
+
+Inductive dd_perm : dd -> dd -> Prop :=
+| DP m k t fs fs' st cs cs' u :
+    Permutation fs fs' -> NoDup (map fst fs) -> Forall2 (opt_rel dd_perm) cs cs' ->
+    dd_perm (DD m k t fs st cs u) (DD m k t fs' st cs' u).
+
+(* the list of cause results only depends on the results for the causes *)
+Definition cause_results (c : ucfg) (cs : list (option dd)) : list (ures rcause) :=
+  (fix go (l : list (option dd)) : list (ures rcause) :=
+     match l with [] => [] | None :: r => UFail [internal_failure] :: go r | Some cd :: r => snd (both c cd) :: go r end) cs.
+
+Lemma both_unfold c m k t fs st cs u :
+  both c (DD m k t fs st cs u) =
+  (let cres := seq_causes (cause_results c cs) in
+   let as_err : ures rerr :=
+     match resolve_kind_u c k with
+     | UFail f => UFail f
+     | UPanic w => UPanic w
+     | UOk def =>
+         let '(typed, unknown, fails, pn) :=
+           collect_fields (map (fun nv => (fst nv, bind_field c def k (fst nv) (snd nv))) (sort_fields fs)) in
+         match pn, fails with
+         | Some w, _ => UPanic w
+         | None, f :: _ => UFail [f]
+         | None, [] => match cres with UOk cs0 => UOk (RErr def m typed unknown st cs0) | UFail f => UFail f | UPanic w => UPanic w end
+         end
+     end in
+   (as_err,
+    match as_err with
+    | UOk e => UOk (RCErr e)
+    | UPanic w => UPanic w
+    | UFail ffs =>
+        if has_internal ffs then UFail [internal_failure]
+        else
+          let m0 := if str_eqb m "" then u else m in
+          let t0 := if str_eqb t "" then "<unknown>" else t in
+          match cres with
+          | UFail f => UFail f
+          | UPanic w => UPanic w
+          | UOk [] =>
+              match (if str_eqb t0 definition_type_name then resolve_kind_def (u_defs c) m0 else None) with
+              | Some rd => UOk (RCDef rd)
+              | None => match lookup_sentinel c t0 m0 with Some id => UOk (RCSentinel id) | None => UOk (RCUnknown m0 t0 []) end
+              end
+          | UOk nested => UOk (RCUnknown m0 t0 nested)
+          end
+    end)).
+Proof. reflexivity. Qed.
+
+(* unmarshal of a node is a function of its name-sorted fields and of the results of its causes *)
+Lemma both_congr c m k t fs fs' st cs cs' u :
+  sort_fields fs = sort_fields fs' -> cause_results c cs = cause_results c cs' ->
+  both c (DD m k t fs st cs u) = both c (DD m k t fs' st cs' u).
+Proof. intros E1 E2. rewrite !both_unfold, E1, E2. reflexivity. Qed.
+
+Lemma cause_results_norm c cs :
+  (forall d, In (Some d) cs -> both c (norm d) = both c d) ->
+  cause_results c (map (option_map norm) cs) = cause_results c cs.
+Proof.
+  induction cs as [|o r IH]; intros H; [reflexivity|].
+  destruct o as [x|]; cbn [map option_map cause_results].
+  - fold (cause_results c (map (option_map norm) r)). fold (cause_results c r).
+    rewrite (H x) by now left. f_equal. apply IH. intros d Hd. apply H. now right.
+  - fold (cause_results c (map (option_map norm) r)). fold (cause_results c r).
+    f_equal. apply IH. intros d Hd. apply H. now right.
+Qed.
+
+(* sorting the fields of every node beforehand changes nothing: unmarshal sorts them itself *)
+Theorem both_norm c : forall d, both c (norm d) = both c d.
+Proof.
+  induction d as [m k t fs st cs u IH] using dd_ind'. cbn [norm].
+  apply both_congr; [apply sort_fields_idem|now apply cause_results_norm].
+Qed.
+
+(* trees that differ only in field order have the same normal form ... *)
+Theorem perm_norm : forall d d', dd_perm d d' -> norm d = norm d'.
+Proof.
+  induction d as [m k t fs st cs u IH] using dd_ind'. intros d' H.
+  inversion H as [m0 k0 t0 fs0 fs' st0 cs0 cs' u0 P N F]; subst. cbn [norm].
+  rewrite (sort_fields_perm_invariant fs fs' P N). f_equal.
+  clear H P N. induction F as [|a b r r' Hab F IHF]; [reflexivity|]. cbn [map].
+  f_equal.
+  - destruct Hab as [|x y Hxy]; [reflexivity|]. cbn. f_equal. apply IH; [now left|exact Hxy].
+  - apply IHF. intros d Hd. apply IH. now right.
+Qed.
+
+(* ... hence Unmarshal (and the restoration of a cause) returns the very same result - the
+   same value, or the same failure - whatever the iteration order of the decoded field maps
+   at any depth of the tree *)
+Theorem deterministic c d d' : dd_perm d d' -> both c d = both c d'.
+Proof. intros H. rewrite <- (both_norm c d), <- (both_norm c d'), (perm_norm d d' H). reflexivity. Qed.
+
 Lemma unmarshal_unfold3 c m k t fs st cs u :
   unmarshal c (DD m k t fs st cs u) =
   match resolve_kind_u c k with
   | UFail f => UFail f
   | UPanic w => UPanic w
   | UOk def =>
-      let x := collect_fields (map (fun nv => (fst nv, bind_field c def k (fst nv) (snd nv))) fs) in
+      let x := collect_fields (map (fun nv => (fst nv, bind_field c def k (fst nv) (snd nv))) (sort_fields fs)) in
       match proj_panic x, proj_fails x with
       | Some w, _ => UPanic w
-      | None, _ :: _ => UFail (proj_fails x)
+      | None, f :: _ => UFail [f]
       | None, [] =>
           match cres_of c cs with
           | UOk cs' => UOk (RErr def m (proj_typed x) (proj_unknown x) st cs')
@@ -51,48 +155,16 @@ Lemma unmarshal_unfold3 c m k t fs st cs u :
       end
   end.
 Proof.
-  unfold unmarshal, cres_of. cbn [both fst].
+  unfold unmarshal, cres_of. rewrite both_unfold. cbv zeta. cbn [fst].
   destruct (resolve_kind_u c k); try reflexivity.
   destruct (collect_fields _) as [[[ty un] fl] pn]. reflexivity.
 Qed.
 
-(* two results that differ only by the order in which the decoded fields were met *)
-Definition res_equiv (a b : ures rerr) : Prop :=
-  match a, b with
-  | UOk (RErr d m ty un st cs), UOk (RErr d' m' ty' un' st' cs') =>
-      d = d' /\ m = m' /\ Permutation ty ty' /\ Permutation un un' /\ st = st' /\ cs = cs'
-  | UFail f, UFail f' => Permutation f f'
-  | UPanic _, UPanic _ => True
-  | _, _ => False
-  end.
-
-(* Unmarshal does not depend on Go's map iteration order over the decoded fields: success
-   or failure alike, the same bound and unknown fields, the same set of possible failures *)
-Theorem deterministic c m k t fs fs' st cs u :
-  Permutation fs fs' -> res_equiv (unmarshal c (DD m k t fs st cs u)) (unmarshal c (DD m k t fs' st cs u)).
-Proof.
-  intros P. rewrite !unmarshal_unfold3.
-  destruct (resolve_kind_u c k) as [def|f|w]; cbn [res_equiv]; [|apply Permutation_refl|exact I].
-  cbv zeta.
-  set (g := fun nv : string * dval => (fst nv, bind_field c def k (fst nv) (snd nv))).
-  destruct (collect_as_flat_map (map g fs)) as [A [B C]]. destruct (collect_as_flat_map (map g fs')) as [A' [B' C']].
-  assert (Pm : Permutation (map g fs) (map g fs')) by now apply Permutation_map.
-  pose proof (collect_good (map g fs)) as G. pose proof (collect_good (map g fs')) as G'.
-  assert (Hg : forall l, Forall (fun nr : string * fres => fres_good (snd nr)) (map g l)).
-  { intros l. apply Forall_forall. intros [n r] H. apply in_map_iff in H as [nv [E _]]. inversion E; subst. apply bind_field_good. }
-  specialize (G (Hg fs)). specialize (G' (Hg fs')).
-  destruct (collect_fields (map g fs)) as [[[ty un] fl] pn]. destruct (collect_fields (map g fs')) as [[[ty' un'] fl'] pn'].
-  unfold proj_typed, proj_unknown, proj_fails, proj_panic in *. cbn [fst snd] in *.
-  destruct G as [-> _]. destruct G' as [-> _].
-  assert (Pf : Permutation fl fl') by (rewrite C, C'; now apply perm_flat_map).
-  assert (Pt : Permutation ty ty') by (rewrite A, A'; now apply perm_flat_map).
-  assert (Pu : Permutation un un') by (rewrite B, B'; now apply perm_flat_map).
-  destruct fl as [|f0 fl0]; destruct fl' as [|f0' fl0'].
-  - destruct (cres_of c cs); cbn; [repeat split; auto|apply Permutation_refl|exact I].
-  - apply Permutation_nil in Pf. discriminate.
-  - apply Permutation_sym, Permutation_nil in Pf. discriminate.
-  - exact Pf.
-Qed.
+(* the top-level form: permuting the fields of the node itself *)
+Corollary deterministic_top c m k t fs fs' st cs u :
+  Permutation fs fs' -> NoDup (map fst fs) ->
+  both c (DD m k t fs st cs u) = both c (DD m k t fs' st cs u).
+Proof. intros P N. apply both_congr; [now apply sort_fields_perm_invariant|reflexivity]. Qed.
 
 (* binding a field: the first same-named key, in the definition's insertion order, that accepts *)
 Theorem first_accepting_key_wins ks v k b :
